@@ -74,7 +74,7 @@ def kw_inv(d):
 
 def exn_name(e):
     n = type(e).__name__
-    return n if n in ("ProtocolError", "TransportLost", "TypeError", "AttributeError", "Exception") else "Other:" + n
+    return n if n in ("ProtocolError", "TransportLost", "TypeError", "AttributeError", "Exception", "KeyError") else "Other:" + n
 
 
 class UserRaise(Exception):
